@@ -21,7 +21,7 @@ from ..ref.ranges import col_name
 
 MAXC, MAXR = 16384, 1048576
 
-SHEET_NAMES = ['Data', 'Calc', 'My Sheet', 'x_2']
+SHEET_NAMES = ['Data', 'Calc', 'My Sheet', 'x_2', 'Ma\u00dfe', 'K\u0131\u015f']
 CONST_COLS = (1, 2, 3)        # A..C constants zone
 ROWS = 8
 
